@@ -544,6 +544,36 @@ def keyword_call_cases(ctx):
     ctx.count("run_trace calls over every positional/keyword split and keyword order", n)
 
 
+def held_results(ctx):
+    """what run_trace returned is the reference action list also LATER: one tracer instance traces kernel after kernel (one of them failing)
+    while the caller holds every earlier result"""
+    S = tweezer_prog.harness_spec()
+    srcs = ["@tweezer\ndef main(a: float):\n    g = grid.from_positions([a, a + 1.0], [0.0])\n    action.set_loc(g)\n    action.turn_on(action.ALL, [0])\n    action.move(grid.shift(g, 0.0, a))\n",
+            "@tweezer\ndef main(a: float):\n    g = grid.from_positions([a], [0.0, 2.0])\n    action.set_loc(g)\n    action.move(grid.shift(g, a, 0.0))\n    action.turn_on([0], [0, 1])\n    action.turn_off([0], [1])\n",
+            "@tweezer\ndef main(a: float):\n    action.turn_on([0], [0])\n"]
+    ms = [kernels.define(s)["main"] for s in srcs]
+    ti = tc.new_tracer(S)
+    held = []
+    for step, (k, a) in enumerate([(0, 3.0), (1, 2.0), (2, 1.0), (0, 1.0), (1, 3.0)]):
+        st, r = tc.run_impl(ms[k], (a,), tracer=ti)
+        nat = tc.run_native(srcs[k], "main", (a,), S)
+        ref = tc.ref_trace(nat[1]) if nat[0] == "ok" else None
+        want = tc.path_text(ref, tc.PosTable()) if ref is not None else "ERR"
+        if st == "ok":
+            held.append((step, r, want))
+        ctx.evaluations += 1
+        for hs, hr, hw in held:
+            try:
+                now = tc.path_text(tc.abstract_path(hr), tc.PosTable())
+            except Exception as e:
+                now = "?unrenderable " + str(e)[:60]
+            if now != hw:
+                ctx.fail({"kind": "held-result-changed", "traced_at": hs, "seen_at": step}, {"held_results": True},
+                         f"the action list returned by trace {hs} on one tracer instance reads {now[:130]} after trace {step} ran on that instance; it was (and the reference is) {hw[:130]}")
+                return
+    ctx.nt(("held-results",))
+
+
 def translated_tracer(ctx, who="C01"):
     """ActionTracer's three handlers translated from taskgen.py on every run (harness/gen/tracer_translate.py: symbolic execution of the
     statement lists, fail-closed) and proved to give the outcome of Model.Tracer.istep for every state and statement; the refinement and
@@ -572,6 +602,7 @@ def run(ctx):
     nested_helper_cases(ctx)
     filled_position_cases(ctx)
     keyword_call_cases(ctx)
+    held_results(ctx)
     ctx.rule = ("random @tweezer kernels from a grammar (straight-line AOD calls, for/if, typed and untyped helper kernels, closures, "
                 "spec lookups, grids from positions/shift/scale/sub-grids/indexing, literal/variable/branch-joined/argument selectors) x "
                 "argument tuples, plus an error stream (AOD before set_loc, shape-changing move, assert, bad lookup/index); "
@@ -622,6 +653,14 @@ def replay(data):
         c = C()
         nested_helper_cases(c)
         return bool(c.fails), (c.fails or ["every nested-helper kernel traces the reference of its spec"])[0][:200]
+    if inp.get("held_results"):
+        class C:
+            def __init__(s): s.fails, s.evaluations = [], 0
+            def fail(s, sig, rep, what): s.fails.append(what)
+            def nt(s, *a): pass
+        c = C()
+        held_results(c)
+        return bool(c.fails), (c.fails or ["held results keep their value"])[0][:200]
     if inp.get("filled_positions") or inp.get("keyword_call"):
         class C:
             def __init__(s): s.fails, s.evaluations = [], 0
